@@ -15,9 +15,11 @@ import (
 	"sort"
 	"strings"
 	"testing"
+	"time"
 
 	"pgregory.net/rapid"
 
+	"verif/harness/drv"
 	"verif/harness/nfsx"
 	"verif/harness/stat"
 	"verif/harness/vfs"
@@ -32,6 +34,10 @@ type c26Case struct {
 	// Tight, when non-empty, replaces Count call by call: call i asks for exactly the size of the header, the
 	// next K not yet listed entries and the trailer, plus Delta bytes (the boundary the size limit is about).
 	Tight []c26Tight `json:"tight,omitempty"`
+	// SlowUs > 0: every backend Lstat takes that many microseconds and ReaddirTimeout is 5 ms, so that the
+	// deadline of the listing passes while its entries are still being looked up. A listing may then fail with
+	// a retry-later status, but it may not be cut short and flagged complete.
+	SlowUs int `json:"slow_us,omitempty"`
 }
 
 type c26Tight struct {
@@ -48,6 +54,15 @@ func genC26(t *rapid.T) c26Case {
 		c.NameLens = append(c.NameLens, pick(t, "len", 1, 2, 3, 4, 5, 200, 255, 255, 255, rapid.IntRange(1, 255).Draw(t, "l")))
 	}
 	c.Cache = cacheCfg{AttrTTLns: pick(t, "ttl", int64(1), int64(3600e9)), AttrSize: 10000, DirCache: rapid.Bool().Draw(t, "dc")}
+	if rapid.IntRange(0, 9).Draw(t, "slow") == 0 {
+		// (kept small: every page looks all entries up again, each lookup sleeps)
+		c.SlowUs = pick(t, "slow_us", 300, 600)
+		if len(c.NameLens) > 30 {
+			c.NameLens = c.NameLens[:30]
+		}
+		c.Count, c.DirCount = pick(t, "slowcount", uint32(1024), 4096, 65536), 4096
+		return c
+	}
 	switch pick(t, "countmode", "fixed", "fixed", "random", "tight", "tight", "tight") {
 	case "random":
 		c.Count = uint32(rapid.IntRange(0, 6000).Draw(t, "rcount"))
@@ -99,7 +114,18 @@ func runC26(tb stat.TB, c c26Case) {
 	for _, n := range names {
 		v.SeedFile("/dir/"+n, 0644, 0, 0, []byte("x"))
 	}
-	s := newSession(tb, v, newOpts(c.Cache))
+	opts := newOpts(c.Cache)
+	if c.SlowUs > 0 {
+		opts.Timeouts = drv.FastTimeouts(10 * time.Second)
+		opts.Timeouts.ReaddirTimeout = 5 * time.Millisecond
+		d := time.Duration(c.SlowUs) * time.Microsecond
+		v.SetBefore(func(call *vfs.Call) {
+			if call.Op == "Lstat" {
+				time.Sleep(d)
+			}
+		})
+	}
+	s := newSession(tb, v, opts)
 	defer s.close()
 	pages := 0
 	tooSmallSeen := false
@@ -185,6 +211,10 @@ func runC26(tb stat.TB, c c26Case) {
 						return
 					}
 				}
+				return
+			}
+			if res.Status == nfsx.ErrJukebox && c.SlowUs > 0 {
+				stat.Label("slow_backend_listing_refused_retry_later", 1)
 				return
 			}
 			if res.Status != nfsx.OK {
@@ -280,6 +310,9 @@ func runC26(tb stat.TB, c c26Case) {
 	}
 	if len(c.Tight) > 0 {
 		ls = append(ls, "tight_counts")
+	}
+	if c.SlowUs > 0 {
+		ls = append(ls, "slow_backend_short_readdir_timeout")
 	}
 	stat.Case(c, pages >= 2 || tooSmallSeen, ls...)
 }
